@@ -74,6 +74,7 @@ Theorem C20_source_facts :
   gen_unknown_key_sends_not_found_and_returns = true /\
   gen_async_receives_looked_up_target = true /\
   gen_async_dials_exactly_the_target = true /\
-  gen_dispatch_strips_prefix_and_passes_key = true.
+  gen_dispatch_strips_prefix_and_passes_key = true /\
+  gen_dispatch_passes_the_key_unmodified = true.
 Proof. repeat split; vm_compute; reflexivity. Qed.
 Print Assumptions C20_source_facts.
